@@ -79,7 +79,8 @@ theorem readLine_flags (s : Sock) : (s.readLine).2.closed = s.closed ∧ ((s.rea
 
 /-- what one line of the header block does to (dictionary, current field name, current field value): a line that
     starts with white space continues the current field (its trimmed text, when not empty, is joined to the value
-    accumulated so far with one space); otherwise the trimmed line is `name ":" value` and stores the trimmed value
+    accumulated so far with one space); otherwise the trimmed line is `name ":" value`, the name a non-empty run of bytes
+    above the blank other than DEL (no blank or tab before the colon: 9bf376e), and stores the trimmed value
     (possibly empty) under the canonical name; `none`: neither -/
 def foldHeaderLine (st : Dic × Bytes × Bytes) (line : Bytes) : Option (Dic × Bytes × Bytes) :=
   if cIsSpace (line.getD 0 0) then
@@ -90,8 +91,11 @@ def foldHeaderLine (st : Dic × Bytes × Bytes) (line : Bytes) : Option (Dic × 
   else
     match findByte 58 (cstr (trimmed line)) with
     | none => none
-    | some i => some (storeHeader st.1 ((trimmed line).take i) (trimmed ((trimmed line).drop (i + 1))),
-                      (trimmed line).take i, trimmed ((trimmed line).drop (i + 1)))
+    | some i =>
+      if validName ((trimmed line).take i) then
+        some (storeHeader st.1 ((trimmed line).take i) (trimmed ((trimmed line).drop (i + 1))),
+              (trimmed line).take i, trimmed ((trimmed line).drop (i + 1)))
+      else none
 
 /-- a complete header block at the head of a stream, and the dictionary it denotes: LF-terminated lines, each
     folded into the state by `foldHeaderLine`, up to the empty line (`"\r"` as the code compares it: a C string);
@@ -132,24 +136,30 @@ theorem headersStep_cases (x : HSt) :
       cases hf : findByte 58 (cstr (trimmed x.s.readLine.1)) with
       | none => left; exact ⟨_, rfl⟩
       | some i =>
-        right
         simp only []
         have hi := (findByte_some hf).1
         have hcl := cstr_length_le (trimmed x.s.readLine.1)
         rw [substring?_ok _ _ _ (Nat.zero_le _) (by omega)]
-        simp only []
-        rw [substring?_ok _ _ _ (by omega) (Nat.le_refl _)]
         simp only [List.drop_zero, Nat.sub_zero]
-        have e : ((trimmed x.s.readLine.1).drop (i + 1)).take ((trimmed x.s.readLine.1).length - (i + 1)) =
-            (trimmed x.s.readLine.1).drop (i + 1) := by
-          apply List.take_of_length_le; simp
-        rw [e]
-        refine ⟨_, rfl, rfl, hne, ?_, rfl⟩
-        intro hnil
-        rw [hnil] at hf
-        have : findByte 58 (cstr (trimmed ([] : Bytes))) = none := by decide
-        rw [this] at hf
-        exact absurd hf (by simp)
+        by_cases hvn : validName ((trimmed x.s.readLine.1).take i) = true
+        · right
+          simp only [hvn, Bool.not_true, Bool.false_eq_true, if_false, if_true]
+          rw [substring?_ok _ _ _ (by omega) (Nat.le_refl _)]
+          simp only []
+          have e : ((trimmed x.s.readLine.1).drop (i + 1)).take ((trimmed x.s.readLine.1).length - (i + 1)) =
+              (trimmed x.s.readLine.1).drop (i + 1) := by
+            apply List.take_of_length_le; simp
+          rw [e]
+          refine ⟨_, rfl, rfl, hne, ?_, rfl⟩
+          intro hnil
+          rw [hnil] at hf
+          have : findByte 58 (cstr (trimmed ([] : Bytes))) = none := by decide
+          rw [this] at hf
+          exact absurd hf (by simp)
+        · left
+          have hvn' : validName ((trimmed x.s.readLine.1).take i) = false := by simpa using hvn
+          simp only [hvn', Bool.not_false, if_true]
+          exact ⟨_, rfl⟩
 
 /-- once the socket is in error or closed, the header reader ends with a socket in error or closed -/
 theorem iterate_headers_unhealthy : ∀ (fuel : Nat) (x : HSt) (r : Sock × Dic),
